@@ -403,7 +403,7 @@ RECURSIVE FieldsOk(_, _, _)
 FieldOk(f, rec) ==
   CASE f.k = "u"      -> rec[f.name] \in 0..(256 ^ f.w - 1)
     [] f.k = "i"      -> rec[f.name] \in (-(256 ^ f.w) \div 2)..((256 ^ f.w) \div 2 - 1)
-    [] f.k = "char"   -> rec[f.name] \in 0..255
+    [] f.k = "char"   -> rec[f.name] >= 0            \* (a character beyond one byte: see WideChar)
     [] f.k = "dur"    -> FitsW(Units(rec[f.name], f.scale), f.w)
     [] f.k = "racelaps" -> RaceLapsOk(rec[f.name])
     [] f.k = "nib"    -> rec[f.name] \in 0..15 /\ rec[f.lo] \in 0..15
@@ -424,11 +424,18 @@ DurReread(kind, rec, name) == LET f == DurFieldOf(kind, name)  u == Units(rec[na
 OverProtocolMax(kind, rec) == \E i \in 1..Len(Layout[kind].fields) :
    LET f == Layout[kind].fields[i] IN f.k \in {"vec", "vecw32", "vecip"} /\ Len(rec[f.name]) > f.pmax
 
+\* a one-byte character field (IS_SCH CharB, IS_ISI Prefix) given a character that does not fit one byte: the protocol has no
+\* representation for it; an implementation may refuse it or send some one-byte stand-in, but what it sends is still ONE
+\* well-formed frame of that kind ("lossy": only the frame laws are checked, not the bytes)
+WideChar(kind, rec) == \E i \in 1..Len(Layout[kind].fields) :
+   LET f == Layout[kind].fields[i] IN f.k = "char" /\ rec[f.name] > 255
+
 \* C03: a packet is either emitted as one well-formed frame or refused
 EncodeOutcome(kind, rec, mode) ==
   IF ~FieldsOk(Layout[kind].fields, 1, rec) THEN "refused"
   ELSE LET n == FrameLen(kind, rec) IN
-       IF n % 4 = 0 /\ n >= 4 /\ n <= MaxLenOf(mode) THEN (IF OverProtocolMax(kind, rec) THEN "any" ELSE "ok") ELSE "refused"
+       IF n % 4 = 0 /\ n >= 4 /\ n <= MaxLenOf(mode)
+       THEN (IF OverProtocolMax(kind, rec) THEN "any" ELSE IF WideChar(kind, rec) THEN "lossy" ELSE "ok") ELSE "refused"
 
 ----------------------------------------------------------------------------
 (* static checks TLC performs on the table itself *)
